@@ -1048,3 +1048,22 @@ package pipeline
 //@     pure
 //@   callee Out(e)
 //@     preserves processor
+
+// antispammerMaintenance (C20: "a banned source that falls silent is unbanned within
+// the configured number of maintenance rounds plus one"): every pause is followed by a
+// maintenance round, whatever the traffic was (ghost counters), until the pipeline stops.
+
+//@ func (*Pipeline).antispammerMaintenance
+//@   ghost nsleep int = 0
+//@   ghost nmaint int = 0
+//@   loop 1 invariant nsleep == nmaint
+//@   callee Sleep(d)
+//@     requires nsleep == nmaint
+//@     pure
+//@     set nsleep := nsleep + 1
+//@   callee Load() (r)
+//@     pure
+//@   callee Maintenance()
+//@     requires nsleep == nmaint + 1
+//@     preserves Pipeline
+//@     set nmaint := nmaint + 1
